@@ -17,6 +17,10 @@ counts, face positions and coefficient fields):
      the periodic-seam half of the statement is C08.A4
  R6  source terms are cell-local (diagonal matrix / own-cell right-hand side)
  R7  domainIntegral() sums cellvolume*value over the interior cells once
+ R8  explicit solver steps: solveExplicitPDE returns old + dt*RHS in every interior cell (so the integral changes by
+     dt*sum(V*RHS), which R2/R3 reduce to boundary-face fluxes) and a ghost layer that satisfies the boundary conditions for
+     the *new* interior - the boundary-face fluxes of the next step (R4/R5: zero for a closed system) read exactly these ghosts.
+     (the implicit step: C04.S1/S6)
 """
 from __future__ import annotations
 import itertools
@@ -38,6 +42,7 @@ RULES = {
     'R5': 'no-flux closure: boundary-face diffusion coefficients sum to zero (zero flux for ghost = inner); advective boundary flux is linear in the wall velocity (R1L)',
     'R6': 'source terms are cell-local',
     'R7': 'domainIntegral = sum(cellvolume*value)',
+    'R8': 'solveExplicitPDE: interior = old + dt*RHS, ghost layer re-imposed from the BCs for the new interior',
 }
 
 TERMS = [
@@ -269,6 +274,14 @@ def job(args):
                 ok = False
                 detail = "summed array is not the interior block"
     ob('R7', 'cell.CellVariable.domainIntegral', ok, f"{cls}: {detail}", mi.loc())
+    # ---- R8 explicit solver step
+    if w.symbolic:
+        from .c12 import explicit_step
+        units.add('pdesolver.solveExplicitPDE')
+
+        def ob8(rule, construct, ok, detail='', loc=''):
+            ob(rule, construct, ok, f"[{cls}] {detail}", loc)
+        explicit_step(w, sm, F.cell_classes(w, tier, mode='axes'), ob8, Rat.atom(('dt',)), r2='R8', r3='R8')
     return dict(obs=obs, units=sorted(units), samples=samples, funcs=sorted(w.interp.funcs_seen))
 
 
